@@ -15,7 +15,7 @@
   (`Step`); theorems quantify over arbitrary `List Step`.
 -/
 import JrpcVerif.Model.BatchClient
-namespace Jrpc
+namespace Jrpc.Client
 
 /-! ### association lists (HashMap stand-in; key uniqueness is a separate invariant theorem) -/
 
@@ -700,4 +700,4 @@ def run : St → List Step → St × List Effect
   | st, [] => (st, [])
   | st, s :: rest => ((run (step st s).st rest).1, (step st s).effs ++ (run (step st s).st rest).2)
 
-end Jrpc
+end Jrpc.Client
